@@ -75,6 +75,11 @@ func c13Gen(g *fw.GenCtx) []fw.Case {
 				add(c13Case{Comb: "marshal", N: n, Workers: w, Pattern: pat})
 			}
 			add(c13Case{Comb: "unmarshal", N: n, Workers: w})
+			if n > 5 && n <= 300 {
+				// one item that cannot be encoded / decoded: its neighbours keep their places
+				add(c13Case{Comb: "marshal", N: n, Workers: w, Pattern: "poison5"})
+				add(c13Case{Comb: "unmarshal", N: n, Workers: w, Pattern: "poison5"})
+			}
 			if w == 4 {
 				add(c13Case{Comb: "roundtrip", N: n, Workers: w})
 			}
@@ -101,21 +106,32 @@ func c13Gen(g *fw.GenCtx) []fw.Case {
 // slowTraveler makes one serializer worker slower than the others.
 type slowTraveler struct {
 	gdbi.BaseTraveler
-	delay time.Duration
+	delay  time.Duration
+	poison bool
 }
 
 func (s *slowTraveler) MarshalJSON() ([]byte, error) {
+	if s.poison {
+		return nil, fmt.Errorf("this traveler cannot be encoded")
+	}
 	if s.delay > 0 {
 		time.Sleep(s.delay)
 	}
 	return json.Marshal(&s.BaseTraveler)
 }
 
-func seqCheck(name string, got []int, n int) string {
+func seqCheck(name string, got []int, n int) string { return seqCheckExcept(name, got, n, -1) }
+
+// seqCheckExcept: position skip holds an item that cannot be encoded/decoded; whatever stands for it
+// in the output, it must stand in its place and the other items must keep theirs.
+func seqCheckExcept(name string, got []int, n int, skip int) string {
 	if len(got) != n {
 		return fmt.Sprintf("%s: %d items out for %d items in", name, len(got), n)
 	}
 	for i, v := range got {
+		if i == skip {
+			continue
+		}
 		if v != i {
 			return fmt.Sprintf("%s: position %d holds item %d (input order is 0..%d)", name, i, v, n-1)
 		}
@@ -158,7 +174,7 @@ func c13Exec(w *fw.Worker, c fw.Case) fw.Result {
 		in := make(chan gdbi.Traveler, 5)
 		go func() {
 			for i := 0; i < n; i++ {
-				in <- &slowTraveler{BaseTraveler: gdbi.BaseTraveler{Count: uint32(i)}, delay: delayFor(i)}
+				in <- &slowTraveler{BaseTraveler: gdbi.BaseTraveler{Count: uint32(i)}, delay: delayFor(i), poison: cc.Pattern == "poison5" && i == 5}
 			}
 			close(in)
 		}()
@@ -167,7 +183,7 @@ func c13Exec(w *fw.Worker, c fw.Case) fw.Result {
 		if cc.Comb == "marshal" {
 			for b := range bytesOut {
 				t := gdbi.BaseTraveler{}
-				if err := json.Unmarshal(b, &t); err != nil {
+				if err := json.Unmarshal(b, &t); err != nil && !(cc.Pattern == "poison5" && len(got) == 5) {
 					msg = "marshal: output is not JSON: " + err.Error()
 				}
 				got = append(got, int(t.Count))
@@ -178,13 +194,20 @@ func c13Exec(w *fw.Worker, c fw.Case) fw.Result {
 			}
 		}
 		if msg == "" {
-			msg = seqCheck(cc.Comb, got, n)
+			skip := -1
+			if cc.Pattern == "poison5" {
+				skip = 5
+			}
+			msg = seqCheckExcept(cc.Comb, got, n, skip)
 		}
 	case "unmarshal":
 		in := make(chan []byte, 5)
 		go func() {
 			for i := 0; i < n; i++ {
 				b, _ := json.Marshal(&gdbi.BaseTraveler{Count: uint32(i)})
+				if cc.Pattern == "poison5" && i == 5 {
+					b = []byte(`{"broken`)
+				}
 				in <- b
 			}
 			close(in)
@@ -193,7 +216,11 @@ func c13Exec(w *fw.Worker, c fw.Case) fw.Result {
 		for t := range jobstorage.UnmarshalStream(in, cc.Workers) {
 			got = append(got, int(t.GetCount()))
 		}
-		msg = seqCheck("unmarshal", got, n)
+		skip := -1
+		if cc.Pattern == "poison5" {
+			skip = 5
+		}
+		msg = seqCheckExcept("unmarshal", got, n, skip)
 	case "mux":
 		m := gripper.NewChannelMux()
 		for p := 0; p < cc.Pipes; p++ {
@@ -345,7 +372,7 @@ func init() {
 		Race:              true,
 		ScheduleDependent: true,
 		WorkerProcs:       -1,
-		Rule:              "each combinator is driven directly with items carrying unique sequence numbers: MarshalStream and UnmarshalStream (and both chained) with 1,2,3,4,5,8 workers and slow-worker patterns (a custom traveler whose MarshalJSON sleeps), ChannelMux with 1-4 pipelines and 5 Put patterns incl. a slow pipeline, LookupBatcher with batch sizes 1,2,50,100 and timeouts 1us/1ms, DualProcessor with loaders returning 0/1/many items and interleaved signals, queue.New with fast and slow consumers; input lengths 0,1,2,3,4,5,7,8,9,10,11,39,40,41,49,50,51,99,100,101,249,250,251,5000; delay profiles at the verifhook points inside the worker loops (none, yield, random, a sleep at each site), GOMAXPROCS in {1,2,16}, -race build. Oracle: output sequence == input sequence (loss, duplication and reordering are each visible) and the output channel closes (a range loop over it ends; otherwise the deadlock certificate). Non-trivial = at least one item.",
+		Rule:              "each combinator is driven directly with items carrying unique sequence numbers: MarshalStream and UnmarshalStream (and both chained) with 1,2,3,4,5,8 workers and slow-worker patterns (a custom traveler whose MarshalJSON sleeps) and one item that cannot be encoded / one record that is not JSON, ChannelMux with 1-4 pipelines and 5 Put patterns incl. a slow pipeline, LookupBatcher with batch sizes 1,2,50,100 and timeouts 1us/1ms, DualProcessor with loaders returning 0/1/many items and interleaved signals, queue.New with fast and slow consumers; input lengths 0,1,2,3,4,5,7,8,9,10,11,39,40,41,49,50,51,99,100,101,249,250,251,5000; delay profiles at the verifhook points inside the worker loops (none, yield, random, a sleep at each site), GOMAXPROCS in {1,2,16}, -race build. Oracle: output sequence == input sequence (loss, duplication and reordering are each visible) and the output channel closes (a range loop over it ends; otherwise the deadlock certificate). Non-trivial = at least one item.",
 		Assumptions: []string{
 			"batch sizes of the LookupBatcher are recorded, not judged (the property does not constrain them)",
 			"ChannelMux.Put is called from one goroutine, as in its only caller",
